@@ -5,8 +5,10 @@
 
      as coded:   value = tuple(escape(i) for i in value);  template % value
                  -> each conversion is applied to the ESCAPED value
-     proposed (fixes/C18-html-mod-conversions.patch): escape(spec % (item,))
-                 -> each conversion's OUTPUT is escaped                        *)
+     SPECIFICATION ([*_spec]; what inert interpolation under % means, and what
+                 fixes/C18-html-mod-conversions.patch would compute):
+                 -> each conversion's OUTPUT is escaped.  A specification is tied
+                 to no code by nature; the theorems relate the code to it.     *)
 From Coq Require Import ZArith List Bool.
 From PTK Require Import Lib.Sx Lib.Py Model.C18_Fragments Model.C18_Ansi Model.C18_Html.
 Import ListNotations.
@@ -23,11 +25,11 @@ Section Mod.
 
   Definition html_mod_markup (parts : list str) (specs : list Z) (vals : list str) : str :=
     fill parts (map2_conv specs (map (html_escape cfg_now) vals)).
-  Definition html_mod_markup_patched (parts : list str) (specs : list Z) (vals : list str) : str :=
+  Definition html_mod_markup_spec (parts : list str) (specs : list Z) (vals : list str) : str :=
     fill parts (map (html_escape cfg_now) (map2_conv specs vals)).
 
   Definition ansi_mod_text (parts : list str) (specs : list Z) (vals : list str) : str :=
     fill parts (map2_conv specs (map (ansi_escape cfg_now) vals)).
-  Definition ansi_mod_text_patched (parts : list str) (specs : list Z) (vals : list str) : str :=
+  Definition ansi_mod_text_spec (parts : list str) (specs : list Z) (vals : list str) : str :=
     fill parts (map (ansi_escape cfg_now) (map2_conv specs vals)).
 End Mod.
